@@ -18,6 +18,10 @@ THEOREMS = [
     "Ts.Storage.C20_other_path_untouched",
     "Ts.Storage.C20_concurrent_distinct_paths",
     "Ts.Storage.C20_stream_refines_bytesio",
+    "Ts.Storage.C20_write_returns_complete",
+    "Ts.Storage.C20_write_succeeds_despite_short_writes",
+    "Ts.Storage.C20_write_under_size_limit",
+    "Ts.Storage.C20_witness_unchecked_short_write",
 ]
 BUDGET_S = (120, 900)
 RULE = ("fs: random scripts of writes (bytes / memoryview / bytearray, sizes 0..4096 incl. empty, nested relative "
